@@ -93,8 +93,12 @@ deriving DecidableEq, Repr
 
 def CState.init (m : ConsMode) : CState := ⟨initSsl m, []⟩
 
+/-- what `soap_client.connect()` does for a client with the TLS context -/
+inductive Conn | ok | sslError | otherError
+deriving DecidableEq, Repr
+
 inductive CEv
-  | connect (tlsOk : Bool)   -- `_connect()`; `tlsOk`: a TLS handshake with the peer succeeds (else `ssl.SSLError`)
+  | connect (r : Conn)       -- `_connect()`; `r`: the TLS handshake succeeds / raises `ssl.SSLError` / raises something else
   | getClient (netloc : Nat) -- `get_soap_client(address)`
   | stop                     -- `stop_all()`: all clients closed, pool emptied
 deriving DecidableEq, Repr
@@ -107,13 +111,15 @@ def getClient (s : CState) (n : Nat) : CState × List Bool :=
 def cstep (s : CState) : CEv → CState × List Bool
   | .getClient n => getClient s n
   | .stop => ({ s with pool := [] }, [])
-  | .connect ok =>
+  | .connect res =>
     match s.ssl with
     | some _ => getClient s 0                  -- decided in the constructor: `connect()` succeeds or raises, nothing else
     | none =>
       let r1 := getClient s 0                  -- first try: a client with the TLS context
-      if ok then ({ r1.1 with ssl := some true }, r1.2)
-      else                                     -- forget it, plaintext client
+      match res with
+      | .ok => ({ r1.1 with ssl := some true }, r1.2)
+      | .otherError => r1                      -- only `ssl.SSLError` is caught: the exception escapes, nothing is decided
+      | .sslError =>                           -- forget the client, decide for plaintext, plaintext client
         let r2 := getClient { r1.1 with pool := r1.1.pool.erase (true, 0), ssl := some false } 0
         (r2.1, r1.2 ++ r2.2)
 
